@@ -69,10 +69,14 @@ def r15_1(prog, rep):
 
         def collect(var, val):
             got = []
+            got2 = []
 
-            def effect(b, i, x, store, _got=got):
+            def effect(b, i, x, store, _got=got, _got2=got2):
                 for c in calls(x):
-                    if CLASS.get(c.get("fn")) == cls:
+                    if c.get("fn") in CLASS:
+                        # a helper of the role's own class, or (when the helper was folded into the dispatcher by hand) the
+                        # calendar family's conversion it wraps
+                        _got = got if CLASS[c["fn"]] == cls else got2
                         args = []
                         for a in c["a"]:
                             ar = strip_casts(cfg.resolve(a))
@@ -93,7 +97,7 @@ def r15_1(prog, rep):
                     return val
                 return None
             AbsWalk(f, {var}, init={var: val}, effect=effect, call_eval=call_eval).run()
-            return got
+            return got or (got2 if cls in ("ndim", "wday") else [])
         # the scale variable of this role: the one that selects a single conversion for most scales
         best = None
         for var in svars:
@@ -222,19 +226,63 @@ def r15_2(prog, rep):
         if var is None:
             rep.fail(rid, key, f.loc(line), "result of %s is not stored" % fn)
             continue
-        # every path from here to a use of var (other than the test itself) must pass a zero test of var / var.y whose failing edge leaves
-        tested = False
+        # every path from here to a use of the result (other than the test itself) must pass a zero test of it (or of its .y) whose
+        # sentinel edge never uses it; the result may travel through plain copies (`tgg = __ret_helper`)
+        chain = {var}
+        copies = set()
+        grew = True
+        while grew:
+            grew = False
+            for b_, i_, x_, ln_ in cfg.all_elems():
+                for l_, kind_, n_ in writes(x_):
+                    rhs = n_.get("init") if kind_ == "decl" else (n_.get("r") if n_.get("k") == "bin" and n_["op"] == "=" else None)
+                    if rhs is None:
+                        continue
+                    r_ = strip_casts(cfg.resolve(rhs))
+                    if r_.get("k") == "ref" and r_["n"] in chain and strip_casts(l_).get("k") == "ref":
+                        copies.add((b_, i_))
+                        if lv(l_) not in chain:
+                            chain.add(lv(l_))
+                            grew = True
+
+        def uses_chain(x_):
+            return any(n_.get("k") == "ref" and n_["n"] in chain for n_ in walk(cfg.resolve(x_)))
+        tests = {}
         for bb in cfg.blocks:
             cc = cfg.cond(bb)
-            if cc is None or not (bb == b or cfg.dominates(b, bb)):
+            if cc is None:
                 continue
             for a in cond_atoms(cc, True):
-                if len(a) == 3 and a[0] == "false" and (a[1] == var or a[1] == var + ".y"):
-                    # true edge (== sentinel) must not reach a use of var
-                    uses, _ = forward_scan(cfg, (cfg.blocks[bb].succs[0], -1),
-                                           lambda b_, i_, x_: "hit" if any(n_.get("k") == "ref" and n_["n"] == var.split(".")[0] for n_ in walk(x_)) else None)
+                if len(a) == 3 and a[0] == "false" and any(a[1] == v_ or a[1] == v_ + ".y" for v_ in chain):
+                    # true edge (== sentinel) must not reach a use of the result
+                    # (walked with the integer locals followed as constants: a helper's `return -1` on the sentinel edge and the
+                    # caller's `if (rc < 0) goto nul` are one path, not two independent branches)
+                    uses = []
+
+                    def eff(b_, i_, x_, store, _u=uses):
+                        if uses_chain(x_) and (b_, i_) not in copies:
+                            _u.append((b_, i_))
+                        return None
+                    ints = {l_["n"] for l_ in f.locals if (l_.get("t") or "").replace("const ", "") in ("int", "unsigned int", "long", "bool", "_Bool")}
+                    AbsWalk(f, ints, effect=eff).run(start_block=cfg.blocks[bb].succs[0])
                     if not uses:
-                        tested = True
+                        blk = cfg.blocks[bb]
+                        dep = {len(blk.elems) - 1}
+                        for j in range(len(blk.elems) - 1, -1, -1):
+                            if j in dep:
+                                dep |= {n_["i"] for n_ in walk(blk.elems[j]["x"]) if n_.get("k") == "elem" and n_["b"] == bb}
+                        tests[bb] = min(dep)
+
+        def visit(b_, i_, x_):
+            if b_ in tests and i_ >= tests[b_]:
+                return "stop"
+            if (b_, i_) in copies:
+                return None
+            if any(lv(l_) in chain and k_ == "assign" for l_, k_, n_ in writes(x_)):
+                return "stop"   # the carrier is overwritten by another result
+            return "hit" if uses_chain(x_) else None
+        hits, _ = forward_scan(cfg, (b, i + 1), visit)
+        tested = bool(tests) and not hits
         if tested:
             rep.ok(rid, key, f.loc(line), "%s's out-of-coverage sentinel is tested on %s before the value is used" % (fn, var))
         else:
